@@ -35,7 +35,7 @@ LEVEL_TEXT = ("Exploration with a reference model: thousands of invocations with
 LEVEL_NOTE = "In-process invocation (module reload per run) validated by a sample of true subprocess runs observed on the wire; keyring is not installed."
 DESIGN_REF = "DESIGN.md §3 C18"
 MIN_COUNTERS = {"quick": {"merge_invocations": 2000, "option_comparisons": 50000, "histories": 300, "history_runs": 900, "winning_source_pairs": 70, "subprocess_runs": 8, "requests_compared_with_effective_options": 900},
-                "thorough": {"merge_invocations": 50000, "option_comparisons": 1200000, "histories": 6000, "history_runs": 18000, "winning_source_pairs": 70, "subprocess_runs": 100, "requests_compared_with_effective_options": 15000}}
+                "thorough": {"merge_invocations": 45000, "option_comparisons": 1000000, "histories": 5500, "history_runs": 16000, "winning_source_pairs": 70, "subprocess_runs": 100, "requests_compared_with_effective_options": 15000}}
 
 STR_OPTS = ["url", "ofxhome", "org", "fid", "bankid", "brokerid", "appid", "appver", "language", "useragent", "user", "clientuid"]
 INT_OPTS = ["version"]
